@@ -531,9 +531,14 @@ def r13_numbered_list_does_not_shrink(ctx, rule="C01.R13"):
             m = _SHRINKS.search(cp)
             if m:
                 shr.append((b, m.group(1), str(mir.strip_all(prov.of_operand(t["args"][0]))), t))
+        memo = {}
+        # every generator function with a loop is an instance: most compare no length with a position at all
+        looping = any(_loop_of(body, b, memo) for b, _t in body.calls())
+        if looping:
+            ctx.ok(rule, "%s:%s:loops" % (rule, f.name), f.loc,
+                   "%d comparison(s) of a list length inside a loop examined" % len(lens))
         if not lens:
             continue
-        memo = {}
         len_locals = {}
         for b, t, v in lens:
             len_locals[t["d"][0]] = (b, v, t)
@@ -570,7 +575,7 @@ def r13_numbered_list_does_not_shrink(ctx, rule="C01.R13"):
                                    "block, or ELSE / the end when this is the last` skips blocks that follow "
                                    "(`IF a THEN .. ELSEIF b THEN .. ELSEIF c THEN ..` never tests c)"
                                    % (f.name, v, ", ".join(bad)))
-    ctx.require(rule, 1)
+    ctx.require(rule, 4)
 
 
 def _root_local(o):
